@@ -5,24 +5,26 @@ Import ListNotations.
 
 (* For every handler skeleton with at most 2 compound constructs and bodies of one or two items, and every
    skeleton with at most 4 compound constructs and one-item bodies (if, if-else, repeat while, repeat with up /
-   down, exit repeat at every legal position; 4430 + 5893 handlers): if the handler contains none of the four
-   patterns P1-P4 (SpecFlow.bad) then decompiling its compilation yields exactly the source nesting - every
-   numbered statement once, in order, in the same construct, every construct with its original condition /
-   loop variable / bounds, no raw jump left.  The bound is in the statement; the proof is a computation of the
-   decompiler model on every one of these handlers inside the kernel. *)
-Theorem C03_pattern_free_reconstructed_bounded :
-  forall l, In l (skeletons 2 2 ++ skeletons 4 1) -> bad l = false -> reconstructed l = true.
-Proof. exact pattern_free_reconstructed. Qed.
-Print Assumptions C03_pattern_free_reconstructed_bounded.
+   down, exit repeat at EVERY legal position; 4430 + 5893 handlers): decompiling its compilation yields exactly
+   the source nesting - every numbered statement once, in order, in the same construct, every construct with its
+   original condition / loop variable / bounds, no raw jump left.  The bound is in the statement; the proof is a
+   computation of the decompiler model on every one of these handlers inside the kernel.  (Before the repair
+   ca070ba of /repo the statement needed the hypothesis "none of the four exit-repeat patterns P1-P4" and the
+   unrestricted statement was refuted by four witnesses; they are now positive examples in LingoFlowFacts.) *)
+Theorem C03_all_reconstructed_bounded :
+  forall l, In l (skeletons 2 2 ++ skeletons 4 1) -> reconstructed l = true.
+Proof. exact all_reconstructed. Qed.
+Print Assumptions C03_all_reconstructed_bounded.
 
-(* The unrestricted statement is refuted on the unchanged tree: one witness per open finding. *)
-Theorem C03_refuted :
-  reconstructed [SWhile 1 [SS 1; SX]] = false /\
-  reconstructed [SWhile 1 [SIfE 2 [SS 1] [SX]]] = false /\
-  reconstructed [SWhile 1 [SIf 2 [SX; SS 1; SS 2]]] = false /\
-  reconstructed [SWhile 1 [SIf 2 [SX]; SIf 3 [SS 1]]] = false.
-Proof. exact (conj P1_refuted (conj P2_refuted (conj P3_refuted P4_refuted))). Qed.
-Print Assumptions C03_refuted.
+(* the skeletons that contain one of the formerly failing exit-repeat patterns are part of that enumeration *)
+Theorem C03_former_findings_covered :
+  (List.length (filter bad (skeletons 2 2)) =? 0)%nat = false /\ (List.length (filter bad (skeletons 4 1)) =? 0)%nat = false /\
+  reconstructed [SWhile 1 [SS 1; SX]] = true /\
+  reconstructed [SWhile 1 [SIfE 2 [SS 1] [SX]]] = true /\
+  reconstructed [SWhile 1 [SIf 2 [SX; SS 1; SS 2]]] = true /\
+  reconstructed [SWhile 1 [SIf 2 [SX]; SIf 3 [SS 1]]] = true.
+Proof. exact (conj (proj1 formerly_bad) (conj (proj2 formerly_bad) (conj P1_now (conj P2_now (conj P3_now P4_now))))). Qed.
+Print Assumptions C03_former_findings_covered.
 
 (* ---- unbounded part: nests of  if ... then ... [else ...] end if  and  repeat while ... end repeat ---- *)
 From DRX Require Import Py.PyBytes Model.LingoGen Model.LingoOps Model.LingoLoop Spec.SpecLingo Spec.SpecNest
